@@ -33,6 +33,10 @@ from . import world as W
 _GL_X, _GL_W = np.polynomial.legendre.leggauss(20)
 
 
+class ModelUnavailable(Exception):
+    """compute_matrices answered None for a sample that is in the measurement's table."""
+
+
 # ----------------------------------------------------------------- small numerics
 def expm_taylor(A):
     """exp(A) by scaling and squaring with an order-18 Taylor series (own code)."""
@@ -249,7 +253,10 @@ def reference_estimate(nominal, computed, sigmas, gyro_params, accel_params, mea
         i2 = min(max(i2, 0), len(times) - 2)
         alpha = (mt - times[i2]) / (times[i2 + 1] - times[i2])
         pva = interp_pva(computed.iloc[i2], computed.iloc[i2 + 1], alpha)
-        z, H, R = mobj.compute_matrices(mt, pva, model)
+        ret = mobj.compute_matrices(mt, pva, model)
+        if ret is None:
+            raise ModelUnavailable(type(mobj).__name__, float(mt))
+        z, H, R = ret
         z = np.asarray(z, dtype=float)
         Hf = np.zeros((len(z), n))
         Hf[:, :ni] = H
